@@ -190,17 +190,36 @@ def swap_mixture(m):
 
 
 # --------------------------------------------------------------------------- compositions
+def fresh_str(s):
+    """an equal but not identical string object (what json / csv / pickle loading produces): `is` comparisons with
+    the library's constants fail for it, `==` comparisons succeed"""
+    return (s + " ")[:-1]
+
+
 def gen_fraction(rng, edge=0.01):
     return rng.uniform(edge, 1 - edge)
 
 
 def gen_composition(rng, mixture, basis=None, edge=0.01):
     """a composition whose MASS fraction is uniform in (edge, 1-edge), expressed in `basis`"""
-    w = Composition(p=gen_fraction(rng, edge), type=CompositionType.weight)
+    w = Composition(p=gen_fraction(rng, edge), type=fresh_str("weight") if rng.random() < 0.3 else CompositionType.weight)
     basis = basis or rng.choice(["weight", "molar"])
     if basis == "molar":
-        return to_molar_exact(w, mixture)
+        c = to_molar_exact(w, mixture)
+        if rng.random() < 0.3:
+            c.type = fresh_str("molar")
+        return c
     return w
+
+
+_flip = {}
+
+
+def _type_label(s):
+    """alternately (per label) the library's constant and an equal-but-not-identical string (as produced by json / csv /
+    pickle)"""
+    _flip[s] = _flip.get(s, 0) + 1
+    return fresh_str(s) if _flip[s] % 2 else s
 
 
 def to_molar_exact(comp, mixture):
@@ -208,7 +227,7 @@ def to_molar_exact(comp, mixture):
         return comp
     m1, m2 = mixture.first_component.molecular_weight, mixture.second_component.molecular_weight
     p = (comp.p / m1) / (comp.p / m1 + (1 - comp.p) / m2)
-    return Composition(p=min(1.0, max(0.0, p)), type=CompositionType.molar)
+    return Composition(p=min(1.0, max(0.0, p)), type=_type_label("molar"))
 
 
 def to_weight_exact(comp, mixture):
@@ -216,7 +235,7 @@ def to_weight_exact(comp, mixture):
         return comp
     m1, m2 = mixture.first_component.molecular_weight, mixture.second_component.molecular_weight
     p = (comp.p * m1) / (comp.p * m1 + (1 - comp.p) * m2)
-    return Composition(p=min(1.0, max(0.0, p)), type=CompositionType.weight)
+    return Composition(p=min(1.0, max(0.0, p)), type=_type_label("weight"))
 
 
 def describe_composition(c):
@@ -386,6 +405,9 @@ def gen_curve_set(rng, mixture, n_curves=None, basis=None, n_points=None, units=
             if all(b - a >= 5 for a, b in zip(temps, temps[1:])):
                 break
     curves = []
+    temps = list(temps)
+    if rng.random() < 0.5:
+        rng.shuffle(temps)  # a set need not list its curves by ascending temperature
     for t in temps:
         k = n_points or rng.randint(4, 8)
         ws = sorted(rng.uniform(0.03, 0.97) for _ in range(k))
@@ -435,6 +457,9 @@ class FluxCase:
         self.comp = pooled_composition(rng) if rng.random() < 0.15 else gen_composition(rng, self.mix, edge=edge)
         self.mode = rng.choice(modes or MODES)
         self.from_membrane = rng.random() < p_membrane
+        if self.from_membrane and rng.random() < 0.25:
+            # exactly at an experiment's temperature (the branch that returns the measured value)
+            self.t_feed = rng.choice(self.membrane.ideal_experiments.experiments).temperature
         if self.from_membrane:
             self.p1 = self.membrane.get_permeance(self.t_feed, self.mix.first_component)
             self.p2 = self.membrane.get_permeance(self.t_feed, self.mix.second_component)
